@@ -11,6 +11,19 @@ theorem objective_entry (cols : List ColInfo) (obj : List (String × Int)) (j : 
     (h : cols[j]? = some c) : (objectiveVec cols obj)[j]? = some ((obj.lookup c.id).getD 0) := by
   simp [objectiveVec, List.getElem?_map, h]
 
+/-- **one objective vector per request**, and the vector of request `k` is built from request `k` alone: what the other
+    requests of the same call say, or said before, has no part in it -/
+theorem objectives_per_request (cols : List ColInfo) (objs : List (List (String × Int))) :
+    (objectives cols objs).length = objs.length ∧
+    ∀ k (h : k < objs.length), (objectives cols objs)[k]? = some (objectiveVec cols objs[k]) := by
+  refine ⟨by simp [objectives], fun k h => ?_⟩
+  simp [objectives, List.getElem?_map, List.getElem?_eq_getElem h]
+
+/-- a column whose id the request does not name gets weight 0 -/
+theorem objective_unnamed_zero (cols : List ColInfo) (obj : List (String × Int)) (j : Nat) (c : ColInfo)
+    (hc : cols[j]? = some c) (hn : obj.lookup c.id = none) : (objectiveVec cols obj)[j]? = some 0 := by
+  simp [objectiveVec, List.getElem?_map, hc, hn]
+
 theorem objective_length (cols obj) : (objectiveVec cols obj).length = cols.length := by simp [objectiveVec]
 
 /-- a returned vector is reported as a dictionary mapping each kept column's id to its value -/
